@@ -138,6 +138,8 @@ TSConfs == [inner2Emb |-> [Inner2 |-> [type |-> "object", properties |-> [X |-> 
             innerTypesLast |-> [Inner |-> [types |-> <<"string", "number", "object">>]],
             embOverride |-> [Emb |-> [type |-> "object", properties |-> [q |-> [type |-> "string"], p |-> [type |-> "integer"]]]],
             \* entries for types that have a built-in translation (time.Time, *big.Int): the entry wins
+            \* entries for named types of UNSUPPORTED kinds (type Callback func(); type Index map[int]string)
+            badOverride |-> ("named:Callback" :> [type |-> "string"]) @@ ("named:Index" :> [type |-> "object", description |-> "by code"]),
             stdOverride |-> ("std:time" :> [type |-> "string", format |-> "date-time"]) @@ ("std:bigint" :> [type |-> "integer"])]
 OTSStd == {Std("time"), Ptr(Std("time")), Slice(Std("time")), MapOf(Ptr(Std("time"))),
            Struct("S", <<Field("When", "", {}, Std("time")), Field("Until", "u", {"omitempty"}, Ptr(Std("time"))), Field("N", "", {}, Ptr(Std("bigint"))),
@@ -152,7 +154,9 @@ ODesc == {Struct("S", <<DescF("A", Prim("int8"), d), Field("B", "b", {"omitempty
                Struct("S", <<Field("B", "", {}, Prim("int8")), DescF("M", Bad("mapint"), "by code"), DescF("C", Slice(Bad("chan")), "chans")>>),
                Slice(Struct("S", <<DescF("A", Ptr(Bad("complex")), "z"), DescF("B", Prim("string"), "kept")>>)),
                Struct("S", <<DescF("W", Struct("Wrap", <<DescF("F", Bad("func"), "cb"), Field("V", "", {}, Prim("int8"))>>), "wrapped")>>)}
-OCases == {[t |-> t, ign |-> ign, tsn |-> "none"] : t \in ODesc, ign \in BOOLEAN} \cup {[t |-> t, ign |-> ign, tsn |-> "none"] : t \in UNION {OBad, ORec, OMany}, ign \in BOOLEAN}
+ONamedBad == {Callback, Ptr(Callback), Slice(Callback), MapOf(Index), Index,
+              Struct("S", <<Field("F", "", {}, Callback), Field("G", "g", {"omitempty"}, Ptr(Callback)), Field("H", "", {}, Prim("int8")), Field("I", "", {}, Slice(Index))>>)}
+OCases == {[t |-> t, ign |-> ign, tsn |-> "badOverride"] : t \in ONamedBad, ign \in BOOLEAN} \cup {[t |-> t, ign |-> ign, tsn |-> "none"] : t \in ODesc, ign \in BOOLEAN} \cup {[t |-> t, ign |-> ign, tsn |-> "none"] : t \in UNION {OBad, ORec, OMany}, ign \in BOOLEAN}
           \cup {[t |-> t, ign |-> FALSE, tsn |-> c] : t \in OTS, c \in {"innerTyped", "innerUntyped", "innerTypes", "innerTypesLast", "embOverride"}}
           \cup {[t |-> t, ign |-> FALSE, tsn |-> c] : t \in OTS2, c \in {"inner2Emb", "none"}}
           \cup {[t |-> t, ign |-> FALSE, tsn |-> c] : t \in OTSStd, c \in {"stdOverride", "none"}}
